@@ -152,7 +152,8 @@ Record strops := {
   s_empty : carrier;                           (* "" *)
   s_add : carrier -> carrier -> carrier;       (* a + b *)
   s_rpartition : carrier -> carrier -> outcome (carrier * carrier * carrier);   (* a.rpartition(sep) *)
-  s_lit : list Z -> carrier                    (* a literal, by code points *)
+  s_lit : list Z -> carrier;                   (* a literal, by code points *)
+  s_lower : carrier -> carrier                 (* a.lower(), on the ASCII letters (what a language tag is made of) *)
 }.
 
 (* ---- str as a list of code points: the concrete operations *)
